@@ -28,6 +28,26 @@ type verifE1Res struct {
 	Out string   `json:"out,omitempty"`
 	Idx []uint32 `json:"idx,omitempty"`
 	Str []string `json:"str,omitempty"`
+	Oob int      `json:"oob,omitempty"` // entries written beyond the 1536-entry index buffer (guard zone)
+}
+
+const verifGuard = 256
+
+func verifIndexBuf() ([]uint32, *[indexSize]uint32) {
+	big := make([]uint32, indexSize+verifGuard)
+	for i := range big {
+		big[i] = 0xDEADBEEF
+	}
+	return big, (*[indexSize]uint32)(unsafe.Pointer(&big[0]))
+}
+
+func verifOob(big []uint32) (n int) {
+	for i := indexSize; i < len(big); i++ {
+		if big[i] != 0xDEADBEEF {
+			n++
+		}
+	}
+	return
 }
 
 func verifE1One(q verifE1Req) (res verifE1Res) {
@@ -74,13 +94,16 @@ func verifE1One(q verifE1Req) (res verifE1Res) {
 		}
 		res.R = []uint64{m}
 	case "flat":
-		var base [indexSize]uint32
+		big, base := verifIndexBuf()
 		idx := int(a[0])
 		carried := int(a[2])
 		pos := a[3]
-		flatten_bits_incremental(&base, &idx, a[1], &carried, &pos)
+		flatten_bits_incremental(base, &idx, a[1], &carried, &pos)
 		res.R = []uint64{uint64(idx), uint64(carried), pos}
-		res.Idx = append([]uint32{}, base[a[0]:idx]...)
+		if idx >= int(a[0]) && idx <= len(big) {
+			res.Idx = append([]uint32{}, big[a[0]:idx]...)
+		}
+		res.Oob = verifOob(big)
 	case "block":
 		esc, piq, em, pp := a[0], a[1], a[2], a[3]
 		var s uint64
@@ -100,19 +123,20 @@ func verifE1One(q verifE1Req) (res verifE1Res) {
 	case "slice":
 		n := a[0]
 		esc, piq, em, pp := a[1], a[2], a[3], a[4]
-		var indexes [indexSize]uint32
+		big, indexes := verifIndexBuf()
 		index := int(a[5])
 		carried, position := a[6], a[7]
 		var processed uint64
 		if x5 {
-			processed = find_structural_bits_in_slice_avx512(buf[:n], &esc, &piq, &em, &pp, &indexes, &index, &carried, &position, a[8])
+			processed = find_structural_bits_in_slice_avx512(buf[:n], &esc, &piq, &em, &pp, indexes, &index, &carried, &position, a[8])
 		} else {
-			processed = find_structural_bits_in_slice(buf[:n], &esc, &piq, &em, &pp, &indexes, &index, &carried, &position, a[8])
+			processed = find_structural_bits_in_slice(buf[:n], &esc, &piq, &em, &pp, indexes, &index, &carried, &position, a[8])
 		}
 		res.R = []uint64{processed, esc, piq, em, pp, uint64(index), carried, position}
-		if index >= int(a[5]) && index <= indexSize {
-			res.Idx = append([]uint32{}, indexes[a[5]:index]...)
+		if index >= int(a[5]) && index <= len(big) {
+			res.Idx = append([]uint32{}, big[a[5]:index]...)
 		}
+		res.Oob = verifOob(big)
 	case "psv":
 		maxs, sl, dl := a[0], a[1], a[2]
 		r := _parse_string_validate_only(unsafe.Pointer(&buf[0]), unsafe.Pointer(&maxs), unsafe.Pointer(&sl), unsafe.Pointer(&dl))
@@ -179,6 +203,7 @@ def native(requests, timeout=600):
             r["idx"] = r.get("idx") or []
             r["r"] = r.get("r") or []
             r["str"] = [bytes.fromhex(x) for x in (r.get("str") or [])]
+            r["oob"] = r.get("oob") or 0
         return res
     finally:
         shutil.rmtree(d, ignore_errors=True)
